@@ -68,6 +68,7 @@ MC_DeliveryMenu ==
 MC_ExportMenu == {<<<<>>, 32>>, <<Leaf("ectx", 7), 32>>, <<Leaf("ectx", 7), 0>>,
                   <<<<>>, 8160>>, <<<<>>, 8161>>}
 
+NoSetups(x) == {}
 PrintState ==
     Emit => PrintT(ToJson([ctx |-> [c \in DOMAIN ctx |-> SeqState(ctx[c])], last |-> last,
                            nsent |-> [c \in DOMAIN sent |-> Len(sent[c])]]))
